@@ -126,6 +126,39 @@ def run_bounded(chk):
         if d.max() > r * (1 + 1e-9) or abs(best - r) > 1e-6 * r:
             fails.append((f"{pname}/minimal_bounding_circle", {"points": P.tolist(), "centre": c.tolist(), "radius": r,
                                                                "farthest": float(d.max()), "smallest_enclosing_radius": best}))
+    # centred balls of convex polygons and polyhedra against their definitions, at every scale and placement (long edges, far placements):
+    # bounding radius = largest centroid-vertex distance, bounded radius = smallest distance from the centroid to an edge line / face plane
+    for name, klass, pts, _ in existence_cases() + [("long_rect", "ConvexPolygon", np.array([[0.0, 0, 0], [10, 0, 0], [10, 1, 0], [0, 1, 0]]), {}),
+                                                    ("trapezoid", "ConvexPolygon", np.array([[0.0, 0, 0], [6, 0, 0], [4, 1.5, 0], [1, 1.5, 0]]), {}),
+                                                    ("slab", "ConvexPolyhedron", np.array([[x, y, z] for x in (0.0, 8.0) for y in (0.0, 3.0) for z in (0.0, 0.5)]), {})]:
+        for s_ in (1e-3, 1.0, 1e3):
+            for pname, R, t in corpus.placements():
+                P = (np.asarray(pts, float) @ np.array([[float(x) for x in row] for row in R]).T) * s_ + np.asarray(t, float) * s_
+                try:
+                    shape = getattr(cox.shapes, klass)(P)
+                except Exception:  # noqa: BLE001
+                    continue
+                n_eval += 1
+                cen = np.asarray(shape.centroid, float)
+                V = np.asarray(shape.vertices, float)
+                two_d = klass == "ConvexPolygon"
+                try:
+                    rb = float(getattr(shape, "minimal_centered_bounding_circle" if two_d else "minimal_centered_bounding_sphere").radius)
+                    ri_ball = getattr(shape, "maximal_centered_bounded_circle" if two_d else "maximal_centered_bounded_sphere")
+                    ri, ci = float(ri_ball.radius), np.asarray(ri_ball.centroid, float)
+                except Exception as e:  # noqa: BLE001
+                    fails.append((f"{name}/centred_balls/s={s_:g}/{pname}", {"class": klass, "points": P.tolist(), "raised": f"{type(e).__name__}: {e}"[:160]}))
+                    continue
+                want_b = float(np.linalg.norm(V - cen, axis=1).max())
+                if two_d:
+                    want_i = min(np.linalg.norm(np.cross(cen - V[k], V[(k + 1) % len(V)] - V[k])) / np.linalg.norm(V[(k + 1) % len(V)] - V[k]) for k in range(len(V)))
+                else:
+                    eq = np.asarray(shape._equations, float)
+                    want_i = float(np.min(np.abs(eq[:, :3] @ cen + eq[:, 3])))
+                if abs(rb - want_b) > 1e-9 * want_b or abs(ri - want_i) > 1e-9 * want_b or np.abs(ci - cen).max() > 1e-9 * want_b:
+                    fails.append((f"{name}/centred_balls/s={s_:g}/{pname}", {"class": klass, "points": P.tolist(), "minimal_centered_bounding_radius": rb,
+                                                                               "largest_centroid_vertex_distance": want_b, "maximal_centered_bounded_radius": ri,
+                                                                               "smallest_centroid_edge_or_face_distance": float(want_i)}))
     # miniball is randomised (random pivots, random retry rotations): degenerate supports (cospherical and coplanar vertex
     # sets, rotated off the axes) are queried repeatedly.  The defects fixed in 93001f4 / f022c2d showed up in 1 - 50 % of the calls.
     reps = 25 if chk.bounded_tier == "quick" else 200
@@ -198,7 +231,7 @@ def run_bounded(chk):
         chk.record("bounded:balls", fkey, "bounded-pass", "definition-check", kind="bounded", detail=f"{n_eval} evaluations")
     chk.bounded.append({"clause": "a circum-/in-ball is returned exactly when one exists and then touches every vertex / face; minimal bounding "
                                   "balls contain every vertex and equal the brute-force smallest enclosing ball; centred balls match their definition",
-                        "bound": "10 cyclic/tangential/generic polyhedra and polygons x scales {1e-3,1e-2,1,1e2,1e3} x 4 placements; "
+                        "bound": "10 cyclic/tangential/generic polyhedra and polygons x scales {1e-3,1e-2,1,1e2,1e3} x 4 placements; centred balls of these and of a long rectangle, a trapezoid and a slab at scales {1e-3,1,1e3}; "
                                  "6 (quick) named convex solids, 2 obtuse tetrahedra and 9 polygons (incl. obtuse / right triangles and slivers whose ball is spanned by 2 points; Polygon and ConvexPolygon) for the miniball clauses (brute force over support sets of 2-4 points); square pyramid, dodecahedron, regular 24- and 120-gon rotated off the axes at scales {1e-3,1,1e3}, each queried 25 (quick) / 200 times because miniball is randomised; 4 off-origin objects: all balls read, object moved / resized / reoriented, read again",
                         "evaluations": n_eval, "distinct_nontrivial": n_eval, "rule": "distinct = (shape, scale, placement, member)",
                         "samples": [{"shape": "box", "scale": 0.01, "member": "circumsphere", "exists": True}],
